@@ -103,7 +103,7 @@ def generate(prop, seed, tier):
         renders = {}
         for n in names:
             if style == "all-naive":
-                renders[n] = "naive-local"
+                renders[n] = "naive-local" if rng.random() < 0.7 else "naive-gap"
             elif style == "file":
                 renders[n] = rng.choice([rng.choice(files), rng.choice(files), "naive-local"])
             elif style == "all-aware":
@@ -111,9 +111,9 @@ def generate(prop, seed, tier):
             elif style == "same-zone":
                 renders[n] = ["zone", zname] if rng.random() < 0.85 else rng.choice(aware)
             else:
-                renders[n] = rng.choice(["naive-local", rng.choice(files), rng.choice(aware),
+                renders[n] = rng.choice(["naive-local", "naive-gap", rng.choice(files), rng.choice(aware),
                                          [rng.choice(["mts", "lit"]), rng.choice(["naive-local", rng.choice(aware)])]])
-        fr = rng.choice(["naive-local", rng.choice(aware)])
+        fr = rng.choice(["naive-local", "naive-gap", rng.choice(aware)])
         if style == "same-zone" and rng.random() < 0.7:
             fr = ["zone", zname]
         variants.append(dict(tz=tz, renders=renders, fresh_render=fr))
